@@ -1090,6 +1090,9 @@ deriving Repr, Inhabited
 def extAuthzMatchPrefix : Str := "istio-ext-authz".toList
 def badCustomActionSuffix : Str := "-deny-due-to-bad-CUSTOM-action".toList
 
+/-- The id prefix the `ext_authz` filter of a provider looks for. -/
+def extPrefix (pr : Str) : Str := extAuthzMatchPrefix ++ ['-'] ++ pr
+
 /-- The prefix `policyName` adds for the CUSTOM builder. -/
 def customPrefix (provider : Str) : Str :=
   if provider.isEmpty then extAuthzMatchPrefix ++ ['-'] else extAuthzMatchPrefix ++ ['-'] ++ provider ++ ['-']
@@ -1131,10 +1134,14 @@ def badCustomFilter (o : BuildOpts) (cps : List Policy) (prov : Str) : Filter :=
     rules := some ⟨.deny, (providerRules o cps prov).map fun e => (e.1 ++ badCustomActionSuffix, e.2)⟩,
     shadow := none, shadowPrefix := [], statPrefix := if o.shapeTCP then "tcp.".toList else [] }
 
+/-- The shadow-rules stat prefix of the CUSTOM builder (also the prefix of the dynamic metadata keys the
+    shadow engine writes). -/
+def extAuthzShadowPrefix : Str := "istio_ext_authz_".toList
+
 def customFilters (o : BuildOpts) (cps : List Policy) (prov : Str) : List GFilter :=
   [ .rbac { name := rbacFilterName o.shapeTCP, rules := none,
             shadow := some ⟨.deny, providerRules o cps prov⟩,
-            shadowPrefix := "istio_ext_authz_".toList,
+            shadowPrefix := extAuthzShadowPrefix,
             statPrefix := if o.shapeTCP then "tcp.".toList else [] },
     .extAuthz (extAuthzFilterName o.shapeTCP) (rbacFilterName o.shapeTCP) (extAuthzMatchPrefix ++ ['-'] ++ prov) ]
 
